@@ -7,7 +7,7 @@ Driver for C14. One case is a history of Loads on one Config (strings hex-encode
        L <n> { S <n> { F | O <kvs> }*  B ( N | R | K <n> { <field> <value> }* )
                FI <n> { <field> <present> <zero> }*  RD <n> <placement>*
                RC ( 0 | 1 S … B … FI … ) }*          (RC 1: a second Load runs concurrently with these sources)
-    => { L <failed> V <kvs> B <n> { <field> <value> }* G <n> <res>* TY <typed getters agree> RD <n> { <consistent> <kvs> }*
+    => { L <failed> V <kvs> B <n> { <field> <value> }* G <n> <res>* TY <typed getters agree> PN <a Load panicked> RD <n> { <consistent> <kvs> }*
          RC ( 0 | 1 <second Load failed> ) }*
 
   <kvs> ::= <n> { <key> ( L <rendering> | M <kvs> ) }*      <res> ::= N | L <rendering> | M
@@ -116,12 +116,14 @@ def pObs1 (keys : List Bytes) : P Obs := do
   let gets ← list pRes
   lit "TY"
   let typed ← bool
+  lit "PN"
+  let panicked ← bool
   lit "RD"
   let rds ← list (do let ok ← bool; let m ← pKvs; pure (ok, m))
   lit "RC"
   let raced ← bool
   let rf ← if raced then some <$> bool else pure none
-  pure { load := { failed := failed, values := vals, bound := bound, gets := keys.zip gets, typed := typed },
+  pure { load := { failed := failed, values := vals, bound := bound, gets := keys.zip gets, typed := typed, panicked := panicked },
          readers := rds, raceFailed := rf }
 
 partial def pObsAll (keys : List Bytes) : P (List Obs) := do
@@ -175,7 +177,7 @@ def stepRace (c : Case) (st : State) (prevV : Kvs) (prevB : List (Bytes × Bytes
   let mBA := fits sBA fA2 fB2
   let getsFit (x : LoadInput) : Bool := o.load.gets.all fun (k, r) => r == specGet (okMaps x) k
   let s := raceOK c.schema c.nv prevV prevB a b o.load.failed failedB o.load.values o.load.bound &&
-    o.load.typed && ((o.load.failed && failedB) || getsFit a || getsFit b)
+    o.load.typed && !o.load.panicked && ((o.load.failed && failedB) || getsFit a || getsFit b)
   (if mAB then sAB else sBA, mAB || mBA, s, s!"RACE AB={mAB} BA={mBA}")
 
 def runCase (c : Case) (obs : List Obs) : Bool × Bool × String :=
